@@ -5,6 +5,7 @@ import FeatModel.Lemmas.C11Graph
 import FeatModel.Lemmas.C11RoundTrip
 import FeatModel.Lemmas.C11RoundTrip2
 import FeatModel.Lemmas.C11Ini
+import FeatModel.Lemmas.C11Sound2
 /-!
 # C11 — mesh/config files round-trip; malformed input is rejected without crashing
 
@@ -12,24 +13,16 @@ All theorems are about the model functions executed by `drv_c11` (`parseMeshFile
 `readIndex`/`readInt`/`readQ`, `RawGraph.serialize`/`deserialize`), which the correspondence run ties to
 `MeshFileReader`, `MeshFileWriter`, `Xml::Scanner`, `String::parse` and `Graph::serialize`/`Graph(buffer)`.
 
-Proved here: parser soundness for every input text (accepted ⇒ declared counts, tuple widths and vertex-index
-ranges of the root mesh hold), `parse ∘ print = id` and the byte-for-byte clause for mesh nodes (root mesh or none,
-mesh parts with mappings / own topology / attributes, partitions; all five mesh types, all sizes), property-map
+Proved here: parser soundness for every input text (accepted ⇒ root mesh, every mesh part and every partition have
+exactly their declared counts, tuple widths and index ranges; a missing child block of a non-empty dimension is never
+accepted), `parse ∘ print ∘ parse = parse` for every accepted file (hence `parse ∘ print = id` on everything the
+parser can return, and the byte-for-byte clause), `parse ∘ print = id` for explicitly described nodes, property-map
 dump/parse for trees of any depth with admissible keys/values, the number and markup layers' print/read round trips,
 graph (de)serialisation round trip, and the exact shape of the known zero-domain-node defect.
-Not proved (observed by correspondence + oracle only): charts and `topology="parent"` parts (not modelled, tier B);
-that every node the parser returns satisfies the printable-node hypotheses (`C11.FullRoundTrip` below, soundness is
-proved for the root mesh only); memory safety of the C++ runtime.
+Not proved (observed by correspondence + oracle only): charts and `topology="parent"` parts (not modelled, tier B: the
+model answers `Outcome.unmodelled`, so no theorem below speaks about such files); memory safety of the C++ runtime.
 -/
 open FeatModel.C11
-
-/-- the full round-trip statement of the property for mesh nodes without charts: every node obtainable by parsing
-    some file is reproduced exactly by parsing its written form (hence also byte for byte).  The proved part is
-    `C11.parse_print_node_partial`: the same conclusion for every node satisfying explicit printable-node hypotheses;
-    missing is the link "every parsed node satisfies them" (proved for the root mesh: `C11.parser_soundness`). -/
-def C11.FullRoundTrip : Prop :=
-  ∀ (text : Str) (sh : Shape) (dim : Nat) (n : Node), parseMeshFile text = .ok sh dim n →
-    parseMeshFile (printMeshFile sh dim n) = .ok sh dim n
 
 /-! ## "input that violates its declared counts, dimensions or vertex-index ranges is always rejected" -/
 
@@ -51,6 +44,33 @@ theorem C11.parseBody_soundness (sh : Shape) (dim : Nat) (m : Markup) (iline : N
     (msh : Mesh) (h : parseBody sh dim m iline rest = .ok sh dim n) (hm : n.mesh = some msh) : msh.wf sh dim = true :=
   parseBody_mesh_wf sh dim m iline rest n msh h hm
 
+/-- Mesh parts, for every input text: an accepted file yields parts whose every mapping has exactly the declared
+    number of entries (so a `<Mapping>` block missing for a dimension of non-zero size is never accepted), whose own
+    topology (if any) has the declared counts, tuple widths and vertex indices below the part's vertex count, and
+    whose attribute sets have one row of the declared width per vertex. -/
+theorem C11.parser_soundness_parts (text : Str) (sh : Shape) (dim : Nat) (n : Node)
+    (h : parseMeshFile text = .ok sh dim n) : ∀ np ∈ n.parts, Part.wf sh dim np.2 :=
+  parseMeshFile_parts_wf text sh dim n h
+
+/-- the completeness clause spelled out: a dimension declared with non-zero size has a mapping of exactly that size -/
+theorem C11.parser_mapping_complete (text : Str) (sh : Shape) (dim : Nat) (n : Node)
+    (h : parseMeshFile text = .ok sh dim n) :
+    ∀ np ∈ n.parts, ∀ d, d ≤ dim → 0 < np.2.sizes.getD d 0 →
+      (np.2.maps.getD d []).length = np.2.sizes.getD d 0 :=
+  parseMeshFile_mapping_complete h
+
+/-- Partitions: one patch per declared rank, every patch strictly increasing with elements below the declared
+    element count.  (That every rank has a `<Patch>` block in the *file* is not enforced by the reader: class K10.) -/
+theorem C11.parser_soundness_partitions (text : Str) (sh : Shape) (dim : Nat) (n : Node)
+    (h : parseMeshFile text = .ok sh dim n) : ∀ p ∈ n.partitions, p.wf :=
+  parseMeshFile_partitions_wf text sh dim n h
+
+/-- the same two for the second-generation parse with a fixed mesh type -/
+theorem C11.reparse_soundness (sh sh' : Shape) (dim dim' : Nat) (text : Str) (n : Node)
+    (h : reparse sh dim text = .ok sh' dim' n) :
+    (∀ np ∈ n.parts, Part.wf sh' dim' np.2) ∧ (∀ p ∈ n.partitions, p.wf) :=
+  ⟨reparse_parts_wf sh sh' dim dim' text n h, reparse_partitions_wf sh sh' dim dim' text n h⟩
+
 /-- `wf` is not vacuous: the unit square with four edges and one quadrilateral -/
 example : Mesh.wf .hyper 2 (⟨[4, 4, 1], [[0, 0], [1, 0], [0, 1], [1, 1]],
     [[[0, 1], [2, 3], [0, 2], [1, 3]], [[0, 1, 2, 3]]]⟩ : Mesh) = true := by decide
@@ -68,12 +88,35 @@ theorem C11.parse_total (text : Str) :
 
 /-! ## `parse ∘ print = id` and `print ∘ parse ∘ print = print` -/
 
+/-- The round-trip statement in closed form, for every input text: whatever the parser returns for a file with a
+    root mesh is reproduced exactly by parsing its written form (`parse ∘ print ∘ parse = parse`). -/
+theorem C11.parse_print_parse (text : Str) (sh : Shape) (dim : Nat) (n : Node)
+    (h : parseMeshFile text = .ok sh dim n) (hm : n.mesh.isSome) :
+    parseMeshFile (printMeshFile sh dim n) = .ok sh dim n :=
+  FeatModel.C11.parse_print_parse text sh dim n h hm
+
+/-- byte-for-byte clause in closed form: writing the re-parsed node reproduces the first output -/
+theorem C11.print_parse_print_parse (text : Str) (sh : Shape) (dim : Nat) (n : Node)
+    (h : parseMeshFile text = .ok sh dim n) (hm : n.mesh.isSome) (sh' : Shape) (dim' : Nat) (n' : Node)
+    (h' : parseMeshFile (printMeshFile sh dim n) = .ok sh' dim' n') :
+    printMeshFile sh' dim' n' = printMeshFile sh dim n := by
+  rw [FeatModel.C11.parse_print_parse text sh dim n h hm] at h'
+  cases h'
+  rfl
+
+/-- files without a root mesh (mesh parts / partitions only): the written root markup has no mesh type, the parse
+    with the known type gives the node back -/
+theorem C11.parse_print_reparse (text : Str) (sh : Shape) (dim : Nat) (n : Node)
+    (h : parseMeshFile text = .ok sh dim n) (hm : n.mesh = none) :
+    parseMeshFile (printMeshFile sh dim n) = .notype ∧ reparse sh dim (printMeshFile sh dim n) = .ok sh dim n :=
+  FeatModel.C11.parse_print_reparse text sh dim n h hm
+
 /-- Mesh node with a root mesh, any number of mesh parts (mappings, optional own topology, attribute sets) and
     partitions, every supported mesh type and every size: parsing the written file gives back exactly the node.
     Hypotheses: the root mesh is well-formed, names are trimmed and free of `"`, `<`, `>`, newline, counts equal the
     declared sizes, numbers fit their C++ types, parts/attributes are sorted by name, patches are sorted and
     duplicate-free (`PartOkFull`, `PartitionOk`).  `_partial` w.r.t. the property: charts and `topology="parent"`
-    parts are outside the model, and `C11.FullRoundTrip` (closure under the parser) is not derived. -/
+    parts are outside the model. -/
 theorem C11.parse_print_node_partial (sh : Shape) (dim : Nat) (m : Mesh) (parts : List (Str × Part))
     (partitions : List Partition)
     (hs : supported sh dim dim = true) (hwf : m.wf sh dim = true) (h64 : ∀ s ∈ m.sizes, s < 2 ^ 64)
